@@ -411,6 +411,7 @@ class Report:
 
     def __init__(self) -> None:
         self.problems: list[tuple[str, str]] = []  # (kind, detail)
+        self.notes: list[tuple[str, str]] = []
         self.srk_table: Optional[dict] = None
         self.srk_index: Optional[int] = None
         self.fuse_hash: Optional[bytes] = None
@@ -426,6 +427,10 @@ class Report:
 
     def bad(self, kind: str, detail: str) -> None:
         self.problems.append((kind, detail))
+
+    def note(self, kind: str, detail: str) -> None:
+        """Deviations from what the CST writes that do not affect authentication (not verdicts)."""
+        self.notes.append((kind, detail))
 
 
 def run_csf(layout: Layout, dek: Optional[bytes] = None) -> Report:
@@ -477,7 +482,7 @@ def run_csf(layout: Layout, dek: Optional[bytes] = None) -> Report:
                     ver, payload = csf.struct(c["key_dat"], CRT_TAG)
                     r.spans.append((*csf.struct_span(c["key_dat"]), "cert"))
                     if ver != csf.version:
-                        r.bad("cert_struct_version", "certificate structure version %#x, CSF %#x" % (ver, csf.version))
+                        r.note("cert_struct_version", "certificate structure version %#x, CSF %#x" % (ver, csf.version))
                     cert = x509util.Cert(payload)
                     if cert.c.dump() != payload:
                         r.bad("cert_trailing", "certificate structure holds more than the DER certificate")
@@ -504,15 +509,15 @@ def run_csf(layout: Layout, dek: Optional[bytes] = None) -> Report:
                     r.bad("ins_key_pcl", "Install Key protocol %#x" % c["pcl"])
             elif c["c"] == "aut_dat":
                 if c["eng"] not in ENGINES:
-                    r.bad("engine", "engine %#x" % c["eng"])
+                    r.note("engine", "engine %#x" % c["eng"])
                 if c["eng"] == 0 and c["cfg"] != 0:
-                    r.bad("engine_cfg", "engine ANY with configuration %#x" % c["cfg"])
+                    r.note("engine_cfg", "engine ANY with configuration %#x" % c["cfg"])
                 if c["pcl"] == PCL_CMS:
                     _need(not c["flags"] & 1, "absolute signature address not supported by the model")
                     ver, payload = csf.struct(c["aut_start"], SIG_TAG)
                     r.spans.append((*csf.struct_span(c["aut_start"]), "sig"))
                     if ver != csf.version:
-                        r.bad("sig_struct_version", "signature structure version %#x, CSF %#x" % (ver, csf.version))
+                        r.note("sig_struct_version", "signature structure version %#x, CSF %#x" % (ver, csf.version))
                     slot = r.keys.get(c["key"])
                     if slot is None and c["key"] == 1 and 0 in r.keys and r.keys[0]["ca"] is False:
                         slot = r.keys[0]  # fast authentication: a non-CA SRK doubles as CSF key
@@ -550,11 +555,11 @@ def run_csf(layout: Layout, dek: Optional[bytes] = None) -> Report:
                     ver, payload = csf.struct(c["aut_start"], MAC_TAG)
                     r.spans.append((*csf.struct_span(c["aut_start"]), "mac"))
                     if ver != csf.version:
-                        r.bad("mac_struct_version", "MAC structure version %#x, CSF %#x" % (ver, csf.version))
+                        r.note("mac_struct_version", "MAC structure version %#x, CSF %#x" % (ver, csf.version))
                     _need(len(payload) >= 4, "MAC structure too short")
                     nonce_len, mac_len = payload[1], payload[3]
                     if payload[0] or payload[2]:
-                        r.bad("mac_reserved", "reserved bytes of the MAC structure are %r" % payload[:4].hex())
+                        r.note("mac_reserved", "reserved bytes of the MAC structure are %r" % payload[:4].hex())
                     _need(len(payload) == 4 + nonce_len + mac_len, "MAC structure length %d for nonce %d mac %d" % (len(payload), nonce_len, mac_len))
                     nonce, mac = payload[4 : 4 + nonce_len], payload[4 + nonce_len :]
                     rec = {"blocks": list(c["blocks"]), "nonce": nonce, "mac": mac, "ok": False, "key_slot": c["key"], "why": None, "plain": None}
@@ -595,13 +600,13 @@ def run_csf(layout: Layout, dek: Optional[bytes] = None) -> Report:
                     r.bad("aut_dat_pcl", "Authenticate Data protocol %#x" % c["pcl"])
             elif c["c"] == "set":
                 if c["itm"] not in (0x01, 0x03):
-                    r.bad("set_itm", "Set item %#x" % c["itm"])
+                    r.note("set_itm", "Set item %#x" % c["itm"])
                 if c["eng"] not in ENGINES:
-                    r.bad("engine", "engine %#x" % c["eng"])
+                    r.note("engine", "engine %#x" % c["eng"])
                 r.other.append(c)
             elif c["c"] == "unlock":
                 if c["eng"] not in ENGINES:
-                    r.bad("engine", "engine %#x" % c["eng"])
+                    r.note("engine", "engine %#x" % c["eng"])
                 r.other.append(c)
             else:
                 r.other.append(c)
